@@ -101,4 +101,5 @@ All ==
                                             size |-> IF b.ok THEN Size(b.tree, T) ELSE 0]])>>)
 
 AllIds == CatIds
+SweepAll == SweepIds
 =============================================================================
